@@ -227,6 +227,27 @@ def run_case(case):
                 if not okd:
                     r.viol("duplicates_differ", "%s.%s gives different results for duplicated rows" % (label, opname),
                            err=errd, **det)
+        # (f) the way a user compares: ONE object, the batch first and then its rows one at a time (an evaluation that
+        #     drifts with every call - statistics updated in evaluation mode - shows here and not on fresh copies)
+        try:
+            shared = copy.deepcopy(model0)
+            with torch.no_grad():
+                full = [t.detach() for t in fn(shared, X, ctx)]
+                for i in range(B):
+                    got_i = [t.detach() for t in fn(shared, X[i:i + 1], ctx[i:i + 1] if ctx is not None else None)]
+                    r.ev()
+                    r.count("same_object_row_checks")
+                    for k, (tf, tg) in enumerate(zip(full, got_i)):
+                        okk, errk = close(tg[0:1], tf[i:i + 1], 2e-5 if ("umnn" in label and opname == "inverse") else None)
+                        if not okk:
+                            r.viol("batch_dependence", "%s.%s row results depend on the rest of the batch" % (label, opname),
+                                   variant="same_object_batch_then_rows", result_index=k, err=errk, row=i, **det)
+                            ok_all = False
+                            raise StopIteration
+        except StopIteration:
+            pass
+        except Exception:
+            r.count("same_object_call_raised")
         if varies and ok_all:
             r.cell(label, opname, "img" if img else "2d", "ctx" if ctx is not None else "noctx",
                    "warm" if case.get("warm", True) else "uninitialised")
